@@ -20,6 +20,10 @@ pub fn run(prop: &str, tier: Tier, seed: i64, replay: Option<&str>) -> i32 {
     if let Some(path) = replay {
         return run_replay(prop, path);
     }
+    if prop == "C06" {
+        // "... or fails to terminate": no single input may stay in progress longer than this
+        start_watchdog("C06", std::env::var("VERIF_HANG_LIMIT_S").ok().and_then(|v| v.parse().ok()).unwrap_or(300));
+    }
     let mut ck = Check::new(prop, tier, seed, started);
     match prop {
         "C01" | "C02" | "C04" | "C05" | "C06" | "C07" | "C10" | "C13" | "C16" => {
